@@ -1921,10 +1921,23 @@ class _BulkORMUpdate(_BulkUDCompileState, UpdateDMLState):
 
             to_evaluate = state.unmodified.intersection(evaluated_keys)
 
-            for key in to_evaluate:
-                if key in dict_:
-                    # only run eval for attributes that are present.
-                    dict_[key] = value_evaluators[key](obj)
+            # evaluate every SET expression against the pre-UPDATE state
+            # first (SQL semantics), then assign
+            new_values = {
+                key: value_evaluators[key](obj)
+                for key in to_evaluate
+                if key in dict_
+                # only run eval for attributes that are present.
+            }
+            unevaluated = {
+                key
+                for key, value in new_values.items()
+                if value is evaluator._EXPIRED_OBJECT
+            }
+            for key, value in new_values.items():
+                if key not in unevaluated:
+                    dict_[key] = value
+            to_evaluate = to_evaluate.difference(unevaluated)
 
             state.manager.dispatch.refresh(state, None, to_evaluate)
 
@@ -1932,7 +1945,8 @@ class _BulkORMUpdate(_BulkUDCompileState, UpdateDMLState):
 
             # attributes that were formerly modified instead get expired.
             # this only gets hit if the session had pending changes
-            # and autoflush were set to False.
+            # and autoflush were set to False.  Same for values that
+            # depend on attributes which are not loaded.
             to_expire = attrib.intersection(dict_).difference(to_evaluate)
             if to_expire:
                 state._expire_attributes(dict_, to_expire)
